@@ -340,6 +340,9 @@ func (a *ctxHiding) analyse(fn hookFn, importPathIdx int, alwaysHide bool, depth
 			}
 			switch len(ret.Results) {
 			case 2:
+				if id, isID := ast.Unparen(ret.Results[0]).(*ast.Ident); isID && id.Name == "nil" && info.Uses[id] == types.Universe.Lookup("nil") {
+					continue // no package is returned
+				}
 				if o := useOf(ret.Results[1]); o != nil && errs[o] {
 					continue // error return
 				}
